@@ -64,7 +64,7 @@ func main() {
 	os.Setenv("SSL_CERT_FILE", filepath.Join(sysDir, "system.pem"))
 	os.Setenv("SSL_CERT_DIR", sysDir)
 	defer os.RemoveAll(sysDir)
-	ev.Main("C18", "exploration", func(r *ev.Run) {
+	ev.MainIsolated("C18", "exploration", 60*time.Minute, func(r *ev.Run) {
 		defer os.RemoveAll(sysDir)
 		r.Rule("real gRPC/TLS servers on 127.0.0.2..4 (one shared port) whose identity is one of {issued by a configured CA (first or second bundle CA), foreign CA, self-signed, expired, not yet valid, valid for another address, valid for the FIRST endpoint's address only, issued by a CA trusted only via SSL_CERT_FILE (the process system pool), issued by the CA of the RA's own client certificate (which is in the client certificate file, not in the bundle), DNS name only, genuine without an extended-key-usage extension}, protocol range in {>=1.2, 1.2 only, 1.3 only, 1.0-1.1 only}, client-certificate policy in {none, request, require any, require and verify, require any with another CA advertised}; bundles of 1 or 2 files holding 1..3 CA certificates; endpoint lists of 1..3 with genuine and impostor servers at every position. Each server records its handshakes (version, peer certificates) and the RPCs it handled. Beside that, one long-lived signer whose client certificate lapses 2..3 s after construction signs before and after the lapse against a genuine server that requests a client certificate. Violations: an RPC handled by a non-genuine server or below TLS 1.2; the RA presenting no or another client certificate to a genuine server that asks for one; Sign failing although a genuine endpoint follows impostors; Sign succeeding with an impostor's certificates. distinct_nontrivial = distinct (bundle, endpoint list, per-server variant) configurations judged")
 		r.Assume("no DNS in the sandbox: endpoint names are IP addresses, matched against IP SANs", "chain validity uses the real clock; margins of 24 h and of one minute", "Retries: 1")
